@@ -50,6 +50,16 @@ func extractProviderFromPath(path string) (provider string, remainingPath string
 	return provider, remainingPath, true
 }
 
+// rawProviderSegment returns the provider segment of /olla/<provider>/... exactly as
+// it appears in the path, without normalisation.
+func rawProviderSegment(path string) string {
+	withoutPrefix := strings.TrimPrefix(path, constants.DefaultOllaProxyPathPrefix)
+	if slashIdx := strings.Index(withoutPrefix, constants.DefaultPathPrefix); slashIdx != -1 {
+		return withoutPrefix[:slashIdx]
+	}
+	return withoutPrefix
+}
+
 // modifyRequestPath updates the request path for backend routing.
 // preserves the original path in context for logging/debugging
 func (a *Application) modifyRequestPath(r *http.Request, newPath string) *http.Request {
